@@ -1,12 +1,117 @@
 import Driver.Tok
-/- line-protocol handlers of this area; see docs/AGENT_GUIDE.md -/
+import BpModel.Chan
+/- line-protocol handler of the AsyncChannel model (C12).
+
+   CHAN <maxsize> <nprogs> <prog>* ; <choice>*
+     prog   ::= S e|f <n> 0|1  |  R <flavour> 0|1  |  C  |  X <target>
+     choice ::= t<i> (run task i)  |  T<i> (fire the wait_for timer of task i)
+   reply: one token per step `<runnable-before>><events>` and a last token `<runnable>`, then
+          ` # <state dump>`.  `BAD` as events = the choice is not enabled in the model. -/
 namespace Drv
+open Bp.Chan
 
 structure ChanSt where
   dummy : Unit := ()
 
-def handleChan (st : ChanSt) (_toks : List String) : Option (ChanSt × String) :=
-  let _ := st
-  none
+def parseProgs : Nat → List String → List Prog → Option (List Prog × List String)
+  | 0, toks, acc => some (acc.reverse, toks)
+  | n + 1, "S" :: m :: k :: c :: rest, acc =>
+    match parseNat k with
+    | some k => parseProgs n rest (.sender (m == "f") k (c == "1") :: acc)
+    | none => none
+  | n + 1, "R" :: _ :: tm :: rest, acc => parseProgs n rest (.receiver (tm == "1") :: acc)
+  | n + 1, "C" :: rest, acc => parseProgs n rest (.closer :: acc)
+  | n + 1, "X" :: tg :: rest, acc =>
+    match parseNat tg with
+    | some tg => parseProgs n rest (.canceller tg :: acc)
+    | none => none
+  | _, _, _ => none
+
+def parseChoice (s : String) : Option Choice :=
+  if s.startsWith "t" then (parseNat (s.drop 1).toString).map Choice.run
+  else if s.startsWith "T" then (parseNat (s.drop 1).toString).map Choice.fire
+  else none
+
+def labelsOf (s : Sys) : String :=
+  let ids := List.range s.tasks.length
+  let ls := (ids.filter (runnable s)).map (fun i => s!"t{i}") ++ (ids.filter (timerLive s)).map (fun i => s!"T{i}")
+  if ls.isEmpty then "-" else String.intercalate "," ls
+
+def showItem : Item → String
+  | .data a b => s!"{a}.{b}"
+  | .flush => "F"
+
+def showOutcome : Outcome → String
+  | .running => "running" | .ok => "ok" | .chanClosed => "chanClosed" | .cancelled => "cancelled"
+  | .timeout => "timeout" | .valueError => "valueError"
+
+def isDone (s : Sys) (t : Nat) : Bool := waitOf s t == some .done
+
+def eventsOf (s s' : Sys) (c : Choice) : String :=
+  let recv := (s'.recvLog.drop s.recvLog.length).map fun (t, it) => s!"r{t}:{showItem it}"
+  let fin := match c with
+    | .run t =>
+      if !isDone s t && isDone s' t then
+        match s'.tasks[t]? with
+        | some x => [s!"d{t}:{showOutcome x.out}"]
+        | none => []
+      else []
+    | .fire _ => []
+  let ev := recv ++ fin
+  if ev.isEmpty then "-" else String.intercalate "," ev
+
+def showFut : Fut → String
+  | .pending => "p" | .woken => "w" | .cancelled => "c"
+
+def showWait : Wait → String
+  | .ready => "r" | .blocked g f => (if g then "g" else "p") ++ showFut f | .done => "D"
+
+def showCode : Code → String
+  | .sender m nx r cl => s!"S{match m with | .each => "e" | .fromStart => "f" | .fromRunning => "F"}{nx}.{r}{if cl then "c" else ""}"
+  | .receiver tm => if tm then "Rt" else "R"
+  | .closer => "C"
+  | .canceller tg => s!"X{tg}"
+  | .flusher none => "f?"
+  | .flusher (some r) => s!"f{r}"
+
+def showTask (x : Task) : String :=
+  showCode x.code ++ ":" ++ showWait x.wait ++ (if x.mustCancel then "!" else "") ++
+    (if x.cancelReq then "c" else "") ++ (if x.timedOut then "t" else "") ++
+    (if x.wait == .done then showOutcome x.out else "")
+
+def commaNat (l : List Nat) : String := String.intercalate "," (l.map toString)
+
+def dump (s : Sys) : String :=
+  String.intercalate "|" [
+    String.intercalate "," (s.queue.map showItem), commaNat s.getters, commaNat s.putters,
+    toString s.unfinished, (if s.closed then "1" else "0"), (if s.flushed then "1" else "0"),
+    toString s.waiting, String.intercalate ";" (s.tasks.map showTask),
+    String.intercalate "," (s.recvLog.map fun (t, it) => s!"{t}:{showItem it}"),
+    String.intercalate "," (s.putLog.map showItem),
+    (match s.preClose with | none => "-" | some n => toString n),
+    (if quiescent s then "q" else "a")]
+
+partial def runChoices (s : Sys) (cs : List String) (acc : List String) : List String × Sys :=
+  match cs with
+  | [] => ((labelsOf s :: acc).reverse, s)
+  | c :: rest =>
+    match parseChoice c with
+    | none => ((s!"{labelsOf s}>BAD" :: acc).reverse, s)
+    | some ch =>
+      if !enabled s ch then ((s!"{labelsOf s}>BAD" :: acc).reverse, s)
+      else
+        let s' := step s ch
+        runChoices s' rest (s!"{labelsOf s}>{eventsOf s s' ch}" :: acc)
+
+def handleChan (st : ChanSt) : List String → Option (ChanSt × String)
+  | "CHAN" :: mx :: n :: rest => do
+    let mx ← parseNat mx
+    let n ← parseNat n
+    match parseProgs n rest [] with
+    | some (progs, ";" :: cs) =>
+      let (toks, s) := runChoices (init mx progs) cs []
+      some (st, String.intercalate " " toks ++ " # " ++ dump s)
+    | _ => some (st, "bad-config")
+  | _ => none
 
 end Drv
